@@ -556,6 +556,36 @@ func c12Unmarshal(c *Ctx) {
 			d = ex
 		}
 	}
+	// "arbitrary spacing": every field is trimmed of all white space (strings.TrimSpace / Fields /
+	// TrimFunc) before it is parsed — removing only blanks rejects tabs and line breaks
+	{
+		trimmed := false
+		withInline(func() {
+			eachInstrI(fn, func(i ssa.Instruction) {
+				call, ok := i.(*ssa.Call)
+				if !ok || callName(&call.Call) != "time.ParseDuration" {
+					return
+				}
+				if flowsFrom(call.Call.Args[0], func(v ssa.Value) bool {
+					tc, isCall := v.(*ssa.Call)
+					if !isCall {
+						return false
+					}
+					switch callName(&tc.Call) {
+					case "strings.TrimSpace", "strings.Fields", "strings.TrimFunc", "bytes.TrimSpace", "bytes.Fields":
+						return true
+					}
+					return false
+				}) {
+					trimmed = true
+				}
+			})
+		}, fn)
+		if !trimmed {
+			c.Fail(key, rule, "the fields are not trimmed of white space (strings.TrimSpace) before time.ParseDuration: specifications spaced with tabs or line breaks are rejected", c.at(parse))
+			return
+		}
+	}
 	var main_, zero *ssa.Call
 	bad := ""
 	for _, a := range appends {
